@@ -11,10 +11,12 @@
    (iii) an ordinary exception leaving the last frame ends the task, and the blocking call, with that exception. *)
 From Coq Require Import List.
 From BV Require Import Engine.RE Engine.REInst Engine.RespMon Proofs.RE_Small Proofs.RE_RespC Proofs.RE_Resp Proofs.RE_Status Proofs.RE_RespEx.
+From BV Require Engine.WaitGroup Engine.WaitGroupSpec Proofs.WaitGroup Proofs.WaitGroupEx.
 Import ListNotations.
 
-(* nothing of the statement the model can express is left out; what it cannot express is listed in the manifest
-   (wait(watch=...)/timeout=, real threads) *)
+(* nothing of the statement the model Engine/RE.v can express is left out; wait(timeout=/error_on_timeout=/watch=)
+   and the status-group bookkeeping are the subject of the dedicated model Engine/WaitGroup.v (second half of
+   this file, theorems C12_wait_...); real threads are not modelled *)
 Definition C12_full : Prop :=
   (forall (P : Type) (presume : P -> input -> outcome P) (plan_of : nat -> P)
           (D : Type) (dev : D -> nat -> devmeth -> D * devres) (pid : nat),
@@ -100,3 +102,129 @@ Example C12_nonvacuous :
   existsb is_throw_in (flat_map snd exn__tr) = true /\ existsb is_value_in (flat_map snd exn__tr) = true /\
   existsb is_helper_in (flat_map snd exn__tr) = true.
 Proof. exact resp_nonvacuous. Qed.
+
+(* ==================================================================================================================
+   Status groups and `wait(group, timeout=, error_on_timeout=, watch=)`: the dedicated model Engine/WaitGroup.v
+   (`_add_status_to_group`, `_status_object_completed`, `_wait`, `_wait_for`, the `_exception` slot at the top of the
+   `_run` loop).  A schedule is ANY list of events: the messages of the plan (add a status to a group / wait / any
+   other message), a status object finishing ok or not, its completion reaching the loop, the timer firing, the two
+   asyncio tasks of `_wait` waking up, `_wait` resuming, the watch task's callback.  [run_tr init evs] is the trace:
+   every event with the input the plan's yield received (if any).  The monitors (Engine/WaitGroupSpec.v) read the
+   events and the inputs only. *)
+Module W.
+Import Engine.WaitGroup Engine.WaitGroupSpec Proofs.WaitGroup Proofs.WaitGroupEx.
+
+(* the strict reading of "no later than the wait on its group": when a wait answers True every status of the group has
+   completed (its failure, if any, has been recorded - hence, by C12_wait_failures_reach_plan, thrown).  False on the
+   unchanged code in two classes (C12_wait_strict_refuted_a / _b below). *)
+Definition C12_wait_full : Prop :=
+  forall evs : list event, mon_fail (snd (run_tr init evs)) = true /\ mon_wait true (snd (run_tr init evs)) = true.
+
+(* (a) every schedule: once the failure of a status is recorded, the NEXT input of the plan is FailedStatus - of that
+   status, or of the last one that failed before that yield (one slot) - never a value, never dropped; FailedStatus of
+   a status is thrown only at the first yield after its completion reached the loop, so once, and never after a later
+   yield - in particular not after a later wait answered True *)
+Theorem C12_wait_failures_reach_plan :
+  forall evs : list event, mon_fail (snd (run_tr init evs)) = true.
+Proof. exact failures_reach_plan. Qed.
+Print Assumptions C12_wait_failures_reach_plan.
+
+(* (b) every schedule: when a wait on group g answers True, every status ever added to g has completed (future
+   resolved, failure recorded) - or error_on_timeout is False and the status OBJECT is done (class a), or a wait on g
+   was cancelled by its watch task before (class b) *)
+Theorem C12_wait_true_only_when_complete_partial :
+  forall evs : list event, mon_wait false (snd (run_tr init evs)) = true.
+Proof. exact wait_true_sound. Qed.
+Print Assumptions C12_wait_true_only_when_complete_partial.
+
+(* (b) outside the classes (no wait cancelled by a watch task, every wait with error_on_timeout) the strict reading *)
+Theorem C12_wait_true_only_when_complete :
+  forall evs : list event,
+    no_cancel (snd (run_tr init evs)) = true -> eot_only (snd (run_tr init evs)) = true ->
+    mon_wait true (snd (run_tr init evs)) = true.
+Proof. exact wait_true_strict. Qed.
+Print Assumptions C12_wait_true_only_when_complete.
+
+(* (b) how a wait ends.  The status task wakes only once released and then whether a future of the group is still
+   unresolved decides; on resuming: all resolved -> True, groups untouched; otherwise the group is put back whole and
+   the answer is the timeout error (error_on_timeout) or whether every status object is done *)
+Theorem C12_wait_result :
+  (forall s w b, ended s = false -> blk s = Some w -> w_sp w = SWait b ->
+     step s EWakeS = if b then (with_blk s (Some (set_sp w (SFinished (unresolved (stat s) (w_futs w))))), [])
+                     else skip s) /\
+  (forall s w timedout, ended s = false -> blk s = Some w -> w_sp w = SFinished timedout ->
+     let s' := fst (step s EResume) in
+     blk s' = None /\ slot s' = slot s /\ stat s' = stat s /\
+     (timedout = false -> rsp s' = Some (RVal (VBool true)) /\ groups s' = groups s) /\
+     (timedout = true -> groups s' = put (w_g w) (w_futs w) (groups s) /\
+        rsp s' = Some (if w_eot w then RExn XTimeout else RVal (VBool (forallb (objdone (stat s)) (w_futs w)))))) /\
+  (forall s g tmo eot watch, lookup g (groups s) = [] ->
+     process s (MWait g tmo eot watch) = mkst (groups s) (stat s) None (Some (RVal (VBool true))) None false).
+Proof. exact (conj wake_decides (conj resume_result wait_empty_group)). Qed.
+Print Assumptions C12_wait_result.
+
+(* one status of the group fails while another is unresolved (error_on_timeout): the response of the wait is the
+   timeout error, but the slot holds the failure and is delivered first: the plan is thrown FailedStatus at the yield
+   of the wait; the group is put back whole *)
+Theorem C12_wait_fail_while_pending :
+  forall s w sid,
+    ended s = false -> blk s = Some w -> w_sp w = SWait false -> w_eot w = true ->
+    In sid (w_futs w) -> sget (stat s) sid = Some (SFin false) ->
+    (exists other, In other (w_futs w) /\ other <> sid /\ resolved (stat s) other = false) ->
+    let s1 := fst (step s (EDone sid)) in
+    let s3 := run s1 [EWakeS; EResume] in
+    slot s3 = Some (XFailed sid) /\ rsp s3 = Some (RExn XTimeout) /\ blk s3 = None /\
+    lookup (w_g w) (groups s3) = w_futs w /\
+    forall m, snd (step s3 (EMsg m)) = [OIn (IThrow (XFailed sid))].
+Proof. exact fail_while_pending. Qed.
+Print Assumptions C12_wait_fail_while_pending.
+
+(* (c) what must not change: no event touches another group (only 'add g' and a wait on g - its start and its end -
+   change group g), a status changes only by its own finish / completion, the slot only by a delivery (which empties
+   it: thrown once) or by a later failure *)
+Theorem C12_wait_frame :
+  (forall s ev g', (forall w, blk s = Some w -> w_g w <> g') -> ev <> EMsg (MAdd g') ->
+     (forall t e wa, ev <> EMsg (MWait g' t e wa)) -> lookup g' (groups (fst (step s ev))) = lookup g' (groups s)) /\
+  (forall s ev sid x, sget (stat s) sid = Some x -> (forall ok, ev <> EFinish sid ok) -> ev <> EDone sid ->
+     sget (stat (fst (step s ev))) sid = Some x) /\
+  (forall s ev e, slot s = Some e ->
+     slot (fst (step s ev)) = Some e
+     \/ (snd (step s ev) = [OIn (IThrow e)] /\ slot (fst (step s ev)) = None)
+     \/ (exists sid, ev = EDone sid /\ sget (stat s) sid = Some (SFin false) /\ slot (fst (step s ev)) = Some (XFailed sid))).
+Proof. exact (conj frame_groups (conj frame_status frame_slot)). Qed.
+Print Assumptions C12_wait_frame.
+
+(* the two classes in which the unchanged code departs from the strict reading; the witnesses are recorded runs of
+   the real RunEngine (Proofs/WaitGroupEx.v) *)
+Theorem C12_wait_strict_refuted_a :
+  exists evs, finding_F1 (tr_of evs) = true /\ has_skip (tr_of evs) = false /\ mon_wait true (tr_of evs) = false.
+Proof. exact strict_refuted_a. Qed.
+Print Assumptions C12_wait_strict_refuted_a.
+Theorem C12_wait_strict_refuted_b :
+  exists evs, finding_F2 (tr_of evs) = true /\ has_skip (tr_of evs) = false /\ mon_wait true (tr_of evs) = false.
+Proof. exact strict_refuted_b. Qed.
+Print Assumptions C12_wait_strict_refuted_b.
+
+(* non-vacuity: recorded real runs reproduced by the model, with failures thrown, waits answering True / False /
+   raising, and a state meeting the hypotheses of C12_wait_fail_while_pending *)
+Example C12_wait_recorded_runs :
+  agrees ex_pend_evs ex_pend_ins 1 ex_pend_gs None = true /\ agrees ex_f2_evs ex_f2_ins 2 ex_f2_gs None = true /\
+  agrees ex_f1_evs ex_f1_ins 1 ex_f1_gs None = true /\ agrees ex_tmo_evs ex_tmo_ins 1 ex_tmo_gs None = true.
+Proof. exact recorded_runs_reproduced. Qed.
+Example C12_wait_failures_nonvacuous :
+  mon_fail (tr_of ex_pend_evs) = true /\ has_skip (tr_of ex_pend_evs) = false /\
+  existsb failed_throw (inputs_of (tr_of ex_pend_evs)) = true /\
+  mon_fail (tr_of ex_f2_evs) = true /\ mon_fail (tr_of ex_f1_evs) = true.
+Proof. exact failures_nonvacuous. Qed.
+Example C12_wait_true_nonvacuous :
+  mon_wait false (tr_of ex_tmo_evs) = true /\ has_skip (tr_of ex_tmo_evs) = false /\
+  existsb (input_eqb (IVal (VBool true))) (inputs_of (tr_of ex_tmo_evs)) = true /\
+  existsb (input_eqb (IVal (VBool false))) (inputs_of (tr_of ex_tmo_evs)) = true /\
+  no_cancel (tr_of ex_pend_evs) = true /\ eot_only (tr_of ex_pend_evs) = true /\ mon_wait true (tr_of ex_pend_evs) = true.
+Proof. exact wait_nonvacuous. Qed.
+Example C12_wait_fail_while_pending_nonvacuous :
+  let s := run init [EMsg (MAdd 0); EMsg (MAdd 0); EMsg (MWait 0 false true []); EFinish 0 false] in
+  exists w, ended s = false /\ blk s = Some w /\ w_sp w = SWait false /\ w_eot w = true /\ In 0 (w_futs w) /\
+            sget (stat s) 0 = Some (SFin false) /\ In 1 (w_futs w) /\ 1 <> 0 /\ resolved (stat s) 1 = false.
+Proof. exact fail_while_pending_instance. Qed.
+End W.
